@@ -45,7 +45,11 @@ ADDSETS = {
     "torchload": ["torch.load"],
     "counter": ["collections.Counter", "pickle.loads"],
 }
+# what else is armed on top of the ML environment while the probe runs
+OVERLAYS = ["none", "global-check", "context"]
+
 FINALS = {
+    "stdlib-not-listed": ("decimal", "Decimal"),      # rated LIKELY_SAFE by the static check, not allow-listed
     "allowed": ("collections", "OrderedDict"),
     "added": ("collections", "Counter"),
     "forbidden": ("vp_sink", "hit"),
@@ -122,7 +126,10 @@ def cases(ctx):
             for final in FINALS:
                 for entry in ENTRIES:
                     for aname in ADDSETS:
-                        allc.append((chain, kind, final, entry, aname))
+                        for overlay in OVERLAYS:
+                            if overlay != "none" and (len(chain) > 1 or aname not in ("none", "loads")):
+                                continue
+                            allc.append((chain, kind, final, entry, aname, overlay))
     if ctx.tier == "quick":
         rng = asm.rng_for(ctx.seed, "c07")
         keep = [c for c in allc if len(c[0]) <= 1]
@@ -136,8 +143,9 @@ def in_allow(base, adds, g):
     return (m in base and n in base[m]) or f"{m}.{n}" in adds
 
 
-def run_case(ctx, mods, base, cache, chain, kind, final, entry, aname):
+def run_case(ctx, mods, base, cache, chain, kind, final, entry, aname, overlay="none"):
     ml, hook, U, torch = mods
+    import fickling
     import vp_sink
     agg = ctx.agg
     adds = ADDSETS[aname]
@@ -147,17 +155,23 @@ def run_case(ctx, mods, base, cache, chain, kind, final, entry, aname):
     if cache[ck] is None:
         return
     data = build(chain, cache[ck])
-    key = h(data + entry.encode() + aname.encode())
+    key = h(data + entry.encode() + aname.encode() + overlay.encode())
     chain_globals = globals_in(chain, kind, final, None)
     all_ok = all(in_allow(base, adds, g) for g in chain_globals)
     nontrivial = (not all_ok) or len(chain) >= 1
     if not agg.case(key, nontrivial, {"chain": list(chain), "inner": kind, "final": final, "entry": entry,
-                                      "additions": adds, "expect": "allowed" if all_ok else "blocked"}):
+                                      "additions": adds, "overlay": overlay, "expect": "allowed" if all_ok else "blocked"}):
         return
-    w = {"chain": list(chain), "inner": kind, "final": final, "entry": entry, "additions_name": aname}
+    w = {"chain": list(chain), "inner": kind, "final": final, "entry": entry, "additions_name": aname, "overlay": overlay}
     del vp_sink.LOG[:]
     hook.activate_safe_ml_environment(also_allow=list(adds) if adds else None)
+    cm = None
     try:
+        if overlay == "global-check":
+            fickling.always_check_safety()
+        elif overlay == "context":
+            cm = fickling.check_safety()
+            cm.__enter__()
         fn = {"pickle.load": pickle.load, "pickle.loads": pickle.loads, "_pickle.load": _pickle.load,
               "_pickle.loads": _pickle.loads}[entry]
         with monitor.Recording() as rec:
@@ -170,6 +184,11 @@ def run_case(ctx, mods, base, cache, chain, kind, final, entry, aname):
             except BaseException as e:
                 outc = ("exc", e)
     finally:
+        if cm is not None:
+            try:
+                cm.__exit__(None, None, None)
+            except Exception:
+                pass
         hook.remove_hook()
         pickle.load, pickle.loads, _pickle.load, _pickle.loads = ORIG
     sink = list(vp_sink.LOG)
@@ -197,7 +216,7 @@ def run_case(ctx, mods, base, cache, chain, kind, final, entry, aname):
         return
     if all_ok:
         agg.count("allowed_loads")
-        if unsafe:
+        if unsafe and overlay == "none":
             agg.violation(f"over-blocked:{hostname}:{kind}",
                           "every global of the chain is in BASE + additions but the load was aborted with the unsafe-file error", w)
         return
@@ -254,4 +273,5 @@ def run_shard(ctx):
 def replay(ctx, payload):
     mods, base = setup()
     c = payload["case"]
-    run_case(ctx, mods, base, {}, tuple(c["chain"]), c["inner"], c["final"], c["entry"], c["additions_name"])
+    run_case(ctx, mods, base, {}, tuple(c["chain"]), c["inner"], c["final"], c["entry"], c["additions_name"],
+             c.get("overlay", "none"))
